@@ -232,8 +232,8 @@ func (sc *schedScenario) runOne(t *testing.T, j *vlib.Job, prefix []int) *sched.
 			res.Violation, res.Class = "replay diverged: "+s.Diverged, "internal/diverged"
 		case s.Deadlock:
 			res.Outcome = "DEADLOCK"
-			res.Violation = "threads did not finish within the virtual horizon\n" + trimDump(s.Dump)
-			res.Class = "deadlock"
+			res.Violation = "threads did not finish within the virtual horizon\n" + trimDump(stuckFirst(s.Dump))
+			res.Class = deadlockClass(s.Dump)
 		case stepViol != "":
 			res.Outcome = "STEPVIOL"
 			res.Violation, res.Class = stepViol, "step-invariant"
@@ -274,6 +274,70 @@ func panicClass(p string) string {
 		out = out[:60]
 	}
 	return out
+}
+
+// stuckThreads returns the goroutine blocks of the harness threads that are still blocked.
+func stuckThreads(dump string) []string {
+	var out []string
+	for _, blk := range strings.Split(dump, "\n\n") {
+		if strings.Contains(blk, "sched.(*Sched).Run.func1") && !strings.Contains(blk, "sched.(*Sched).loop") {
+			out = append(out, blk)
+		}
+	}
+	return out
+}
+
+// stuckFirst moves the blocked harness threads to the front of the dump (the dump is trimmed).
+func stuckFirst(dump string) string {
+	st := stuckThreads(dump)
+	if len(st) == 0 {
+		return dump
+	}
+	return "BLOCKED HARNESS THREADS:\n" + strings.Join(st, "\n\n") + "\n\nALL GOROUTINES:\n" + dump
+}
+
+// deadlockClass names a deadlock by the badger functions the blocked harness threads are stuck in
+// (innermost badger frame of each), e.g. "deadlock/y.(*WaterMark).WaitForMark".
+func deadlockClass(dump string) string {
+	seen := map[string]bool{}
+	var fns []string
+	name := func(l string) string {
+		fn := strings.TrimPrefix(l, "github.com/dgraph-io/badger/v4")
+		fn = strings.TrimLeft(fn, "/.")
+		if i := strings.LastIndexByte(fn, '('); i > 0 && strings.HasSuffix(fn, ")") {
+			fn = fn[:i] // drop the argument list: the last "(...)" group
+		}
+		return fn
+	}
+	for _, blk := range stuckThreads(dump) {
+		inner, outer := "", ""
+		for _, l := range strings.Split(blk, "\n") {
+			if !strings.HasPrefix(l, "github.com/dgraph-io/badger/v4") || strings.Contains(l, "/vshim/") || strings.Contains(l, "zz_verif") ||
+				strings.Contains(l, ".init.") || strings.Contains(l, "schedExec") {
+				continue
+			}
+			if inner == "" {
+				inner = name(l)
+			}
+			outer = name(l)
+		}
+		if inner == "" {
+			continue
+		}
+		fn := outer + "->" + inner // the API call the thread made and where it is stuck
+		if outer == inner {
+			fn = inner
+		}
+		if !seen[fn] {
+			seen[fn] = true
+			fns = append(fns, fn)
+		}
+	}
+	if len(fns) == 0 {
+		return "deadlock"
+	}
+	sort.Strings(fns)
+	return "deadlock/" + strings.Join(fns, "+")
 }
 
 func trimDump(d string) string {
